@@ -1,5 +1,5 @@
 SPECIFICATION Spec
-CONSTANTS BitSpace = 4 Honest = TRUE Window = 1 MaxRounds = 1 MaxGen = 2 MaxHon = 0 MaxDup = 0 CreditBy = "object" Reset = FALSE
+CONSTANTS BitSpace = 4 Honest = TRUE Window = 1 MaxRounds = 2 MaxHon = 1 MaxDup = 1 CreditBy = "object"
 INVARIANT TypeOK
 INVARIANT SubProfile
 INVARIANT AggIsAnswers
